@@ -48,7 +48,11 @@ def preload():
 
 def cases(tier, seed):
     n = 900 if tier == "quick" else 20000
-    return [{"seed": seed * 49999 + i * 3 + 1, "kind": KINDS[i % len(KINDS)]} for i in range(n)]
+    out = [{"seed": seed * 49999 + i * 3 + 1, "kind": KINDS[i % len(KINDS)]} for i in range(n)]
+    # synchronous schedulers with several stragglers among the first trials: rungs of different brackets complete out of step
+    for i in range(240 if tier == "quick" else 5000):
+        out.append({"seed": seed * 49999 + i * 3 + 2, "kind": ("dehb", "dehb", "sync_hb")[i % 3], "arm": "stragglers"})
+    return out
 
 
 def floors(tier):
@@ -56,7 +60,7 @@ def floors(tier):
     return {"runs": 400 * k, "decided:resumes": 300 * k, "decided:warm_starts": 150 * k, "decided:deletes_before_end": 500 * k,
             "early_removals": 100 * k, "runs:delete_checkpoints": 200 * k, "runs:no_delete": 80 * k,
             "decided:sync_paused_deletes": 50 * k, "runs:early_removal_requested": 60 * k,
-            "decided:pbt_clone_source_choices": 100 * k, "runs:pause_capable_with_several_reports_per_poll": 30 * k, "runs:dehb_without_pause_resume": 15 * k, "runs:synchronous_with_stragglers": 60 * k, "runs:synchronous_with_jobs_crashing_after_a_report": 40 * k, "runs:pbt_with_jobs_stopped_from_outside": 40 * k, "runs:pbt_with_jobs_ending_by_themselves": 40 * k,
+            "decided:pbt_clone_source_choices": 100 * k, "runs:pause_capable_with_several_reports_per_poll": 30 * k, "runs:dehb_without_pause_resume": 15 * k, "runs:synchronous_with_stragglers": 250 * k, "runs:synchronous_with_jobs_crashing_after_a_report": 40 * k, "runs:pbt_with_jobs_stopped_from_outside": 40 * k, "runs:pbt_with_jobs_ending_by_themselves": 40 * k,
             "decided:warm_starts_from_completed_trial": 5 * k, "decided:warm_starts_from_failed_trial": 5 * k, "runs:nan_reporting_trials": 25 * k, "decided:resumes_of_nan_trials": 10 * k}
 
 
@@ -102,6 +106,13 @@ def expand(spec):
         # stragglers: some jobs make progress in few polls only, so that rungs of different brackets complete out of step
         p["plan"]["slow"] = {str(rng.randint(0, 14)): rng.choice([0.05, 0.1, 0.25]) for _ in range(rng.randint(1, 4))}
         p["n_workers"] = max(2, p["n_workers"])
+    if spec.get("arm") == "stragglers":
+        r3 = random.Random(spec["seed"] + 31)
+        p["delete_checkpoints"] = True
+        p["n_workers"] = r3.randint(2, 4)
+        p["plan"].pop("fail", None)
+        p["plan"]["slow"] = {str(t): r3.choice([0.03, 0.08, 0.15]) for t in r3.sample(range(0, 10), r3.randint(2, 5))}
+        p["stop"] = r3.choice([{"max_num_evaluations": r3.randint(120, 300)}, {"max_num_trials_started": r3.randint(15, 40)}])
     p["nan_frac"] = rng.choice([0.5, 0.7, 0.85]) if kind == "sync_hb" and rng.random() < 0.4 else 0
     p["early"] = None
     if kind.startswith("hb_") and p["delete_checkpoints"] and rng.random() < 0.45:
@@ -111,7 +122,7 @@ def expand(spec):
             p["early"]["baseline"] = b
         else:
             p["early"].update({"approx_steps": 5, "min_data_at_rung": rng.choice([1, 3])})
-    p.update({k: v for k, v in spec.items() if k not in ("seed", "kind") and not k.startswith("_")})
+    p.update({k: v for k, v in spec.items() if k not in ("seed", "kind", "arm") and not k.startswith("_")})
     return p
 
 
@@ -124,7 +135,7 @@ def run_case(spec):
     if p["early"]:
         sched_extra["early_checkpoint_removal_kwargs"] = dict(p["early"])
         o.count("runs:early_removal_requested")
-    if kind == "dehb" and random.Random(spec["seed"] + 3).random() < 0.4:
+    if kind == "dehb" and spec.get("arm") != "stragglers" and random.Random(spec["seed"] + 3).random() < 0.4:
         # documented option: first-bracket trials are stopped at their rung level and promotions start new trials
         sched_extra["support_pause_resume"] = False
         o.count("runs:dehb_without_pause_resume")
